@@ -40,6 +40,12 @@ claimed = {
  "C13": dict(level="exploration", technique="property-based testing (rapid): grammar-generated well-formed inputrc programs vs an independent reference evaluator (differential); rapid.MakeFuzz under go test -fuzz in the thorough tier",
    text="Well-formed programs from a grammar are evaluated both by the parser and by a small independent reference evaluator of the same AST; Binds and Vars must agree in both directions (nothing missing, nothing extra). Exploration with a complete oracle for the generated fragment of the language.",
    note="Only the documented notation is generated; sequences compared modulo Meta-x == ESC x. One known finding (nested $if leak) is recognised by its exact mechanism and reported as KNOWN-FINDING.", ref="DESIGN.md §3 C13"),
+ "C14": dict(level="exploration", technique="property-based testing (rapid): generated lines x cursor positions x table-driven completers (three prefix variants) x menu key sequences; oracle buffer == before + candidate + after at every input wait, abort restores",
+   text="The application completer is table-driven from the generated case, so the harness knows the candidate set; at every input wait the buffer must be the original or B + v + A for a candidate v matching the word part before the cursor under the configured case rule; Ctrl-C on an open menu must restore buffer and cursor without returning.",
+   note=RIG_NOTE, ref="DESIGN.md §3 C14"),
+ "C15": dict(level="exploration", technique="property-based testing (rapid): generated candidate sets (1..60 values; plain, described, aliased, tagged) x terminal sizes x forward / backward / mixed cycling of length 2N+3; permutation and period oracle on the inserted word",
+   text="The word inserted in the line after each menu-complete / menu-complete-backward press is read through the public API; over the first N presses it must be a permutation of the N candidates and the sequence must repeat with period N. Validity predicate (any order is accepted).",
+   note=RIG_NOTE, ref="DESIGN.md §3 C15"),
  "C16": dict(level="exploration", technique="property-based testing (rapid): generated buffers x cursor positions x kill commands by name x numeric arguments x kill sequences through real pty sessions; algebraic oracle kill;yank = id and register == removed range",
    text="Every kill command is reached by name on a private key sequence, one command per read so each intermediate buffer and the kill register are observed through the public API; oracle: one contiguous range removed, register equals it, immediate yank restores, most recent kill is what yank inserts.",
    note=RIG_NOTE + " One known finding (word kills on multi-byte text) excluded by construction and reported from a regress case.", ref="DESIGN.md §3 C16"),
